@@ -747,6 +747,18 @@ func init() {
 			}
 			return out
 		},
+		"path/filepath.Clean": func(m *Machine, a []Val) Val {
+			s := a[0].(Str)
+			if s.IsC() {
+				return Str{C: filepath.Clean(s.C)}
+			}
+			if _, ok := m.notes["decl:fpclean"]; !ok {
+				m.ex.z.Send("(declare-fun fpclean (String) String)")
+				m.notes["decl:fpclean"] = CB(true)
+			}
+			m.stubsRun["model: filepath.Clean(symbolic) = uninterpreted function"]++
+			return Str{S: "(fpclean " + s.T() + ")"}
+		},
 		"path/filepath.Base": func(m *Machine, a []Val) Val { return Str{C: filepath.Base(concStr(m, a[0], "filepath.Base"))} },
 		"path/filepath.Dir":  func(m *Machine, a []Val) Val { return Str{C: filepath.Dir(concStr(m, a[0], "filepath.Dir"))} },
 
